@@ -5,6 +5,8 @@ CONSTANTS
   ProcOf <- SProcOf
   Prog <- SProg
   Modes = {"fork", "spawn"}
+  QInit = {TRUE}
+  MaxToggle = 0
   CopyStep = TRUE
   Variant = "code"
 INVARIANT TypeOK
